@@ -4,7 +4,7 @@
 //verif:native-timeout 120000
 //verif:assume purge drivers end to end over in-memory stores (as C14's end-to-end harness: real PurgeBuildReverseIndex / PurgeDeleteUnused, openKV routed to the in-memory KV model symbolically, real pebble natively); faults: the solver picks one store call (any call on the metadata or blob store, reads and listings included) of the index build or of delete-unused that fails once (transient), or the mutating call at which the index build dies (fail-stop, landed or not) after which the build is resumed with --resume on a fresh local KV store
 //verif:assume world as in C14: two committed bundles sharing a file, the blobs of a deleted bundle, one bundle uploaded after the index build; index chunk size 2 (so several chunks exist); one variant with 12 keys at one key per chunk and a crash after the tenth chunk; listings returning full pages or at most two keys per page; in the crash variants the late bundle's blobs are written before the resume and the bundle is committed after it (an interrupted upload retried as a whole, or one long upload whose metadata lands after the resumed build)
-//verif:cover VerifC13PurgeFaults upload-between-crash-and-resume short-listing-pages resumed-after-ten-chunks fault-in-build fault-in-delete build-crashed-and-resumed reported-failure-retried late-upload-reuses-orphaned-blobs two-repositories extra-context upload-in-flight-across-the-resume blob-store-without-touch
+//verif:cover VerifC13PurgeFaults upload-between-crash-and-resume short-listing-pages resumed-after-ten-chunks fault-in-build fault-in-delete build-crashed-and-resumed reported-failure-retried late-upload-reuses-orphaned-blobs two-repositories extra-context upload-in-flight-across-the-resume blob-store-without-touch chunks-numbered-from-100
 package core
 
 import (
@@ -48,9 +48,14 @@ func VerifC13PurgeFaults() {
 		mode = 2
 		vCover("resumed-after-ten-chunks")
 	}
+	chunkStart := 0
+	if mode == 2 && vChoose("chunkIndexStart", 2) == 1 {
+		chunkStart = 100 // chunk files numbered from 101 on (the documented way to merge indexes by hand): more chunks than keys
+		vCover("chunks-numbered-from-100")
+	}
 	build := func(dir string, resume bool) error {
 		_, err := PurgeBuildReverseIndex(stores, append([]PurgeOption{WithPurgeLogger(zap.NewNop()), WithPurgeLocalStore(vKVDir(dir)),
-			WithPurgeIndexChunkSize(chunk), WithPurgeParallel(1), WithPurgeResumeIndex(resume)}, w.extraOpts()...)...)
+			WithPurgeIndexChunkSize(chunk), WithPurgeParallel(1), WithPurgeResumeIndex(resume), WithPurgeIndexChunkStart(chunkStart)}, w.extraOpts()...)...)
 		return err
 	}
 	lateContent := "uploaded-after-the-index"
